@@ -190,6 +190,10 @@ def _mk_seq_type(kind, real):
                 _check_bytes_range(r)
             return r
         if isinstance(x, (SymInt,)):
+            if kind in ("bytes", "bytearray"):
+                if not bool(x >= 0):
+                    raise ValueError("negative count")
+                return S.repeat_seq(0, x, kind)        # bytes(n): n zero bytes
             raise Undecided("%s(symbolic length)" % kind)
         if kind == "bytearray" and not a and isinstance(x, _b.tuple) and len(x) == 0 and S.active():
             # bytearray(): a fresh, empty, mutable byte sequence (proxy, so that symbolic bytes can be appended)
